@@ -128,6 +128,9 @@ func loadAll(repo string, overlay map[string][]byte) (*Ctx, error) {
 	if err := c.loadContracts(verifDir() + "/lib"); err != nil {
 		return nil, fmt.Errorf("contracts: %v", err)
 	}
+	if err := c.checkImmutables(); err != nil {
+		return nil, fmt.Errorf("contracts: %v", err)
+	}
 	if err := c.prepareLemmas(); err != nil {
 		return nil, fmt.Errorf("contracts: %v", err)
 	}
